@@ -26,6 +26,16 @@ CLAIMED = {
     note=("Trusted: lianvc + encoding, z3; os.walk / yaml / DataModel query as uninterpreted specifications; opaque analysis callees with an assumed "
           "frame (do not touch the entry-point set); rule files well-typed; args/return_type criteria unused."),
     design='§4 C20'),
+ 'C15': dict(
+    text=("Proof (partial): for every history of save/get/export on a GeneralLoader, get_raw_item_by_id/get_item_by_id return the content most recently "
+          "saved for the id: the representation invariant (index, active bundle, bundle files, bundle cache, item cache all describe the latest content per "
+          "id) is established/preserved by save, export, get; new bundle files never overwrite older ones (path injectivity lemma); util.LRUCache is a "
+          "faithful map; OneToManyMapLoader.save/convert_* keep forward and reverse maps for non-empty content. VCs from the real loader.py/util.py, "
+          "discharged by z3. One recorded finding (saving an empty collection is ignored). Not decided: the 'failed write is reported' clause, "
+          "restore by a fresh loader, the 17 subclass hook pairs (assumed; bounded stand-in through real files), LRU recency-list safety."),
+    note=("Trusted: DataModel/pandas/feather as uninterpreted table tokens with identity round trip; subclass hooks opaque; lianvc + encoding; z3. "
+          "LRUCache get/put/remove may raise AttributeError/KeyError as far as the proof goes (list well-formedness only bounded)."),
+    design='§4 C15'),
  'C16': dict(
     text=("Proof: the representation invariant of DataModel (schema == positions of the current columns; row cache, when marked valid, holds the current "
           "cells; every entry of the per-column equality index is the ascending position index of the CURRENT frame) is established by __init__, "
